@@ -118,6 +118,9 @@ impl ParallelArchive {
     /// This is the core method that enables parallel reads. Each call opens
     /// a new file handle, avoiding conflicts with other threads.
     pub fn read_file_with_new_handle(&self, filename: &str) -> Result<Vec<u8>> {
+        #[cfg(warcraft_rs_verif)]
+        let _verif_task = crate::verif_hooks::TaskGuard::new(filename);
+
         // Open a new file handle for this thread
         let mut archive = Archive::open(&self.path)?;
 
@@ -157,6 +160,8 @@ impl ParallelArchive {
                 // Extract all files in this batch
                 let mut batch_results = Vec::new();
                 for &filename in chunk.iter() {
+                    #[cfg(warcraft_rs_verif)]
+                    let _verif_task = crate::verif_hooks::TaskGuard::new(filename);
                     let data = archive.read_file(filename)?;
                     batch_results.push((filename.to_string(), data));
                 }
@@ -282,6 +287,8 @@ fn extract_with_config_batched<P: AsRef<Path>>(
                 // Process all files in this batch with the same handle
                 let mut batch_results = Vec::with_capacity(chunk.len());
                 for &filename in chunk.iter() {
+                    #[cfg(warcraft_rs_verif)]
+                    let _verif_task = crate::verif_hooks::TaskGuard::new(filename);
                     let result = if config.skip_errors {
                         archive_handle.read_file(filename)
                     } else {
